@@ -56,15 +56,16 @@ pub fn run_c09(args: &Args) -> i32 {
   net::set_policy_drop_all();
   let mut rep = Report::new(
     args,
-    "1-3 unintelligible changes (undecodable CDR, unknown representation id, dispose with never-seen key hash) at head/middle/tail among 2-15 changes from 1-2 writers, reliable and best-effort, with_key/no_key DataReader, SimpleDataReader and async stream; every reader call bracketed by a thread-CPU-time watchdog in a subprocess shard; distinct = hash of (change kinds | ops); non-trivial = >=1 bad change followed by >=1 intelligible change",
+    "1-3 unintelligible changes (undecodable CDR, unknown representation id, dispose with never-seen key hash) at head/middle/tail among 2-15 changes from 1-2 writers, reliable and best-effort, with_key/no_key DataReader, SimpleDataReader and async stream; every reader call bracketed by a thread-CPU-time watchdog in a subprocess shard; distinct = hash of (change kinds | ops); non-trivial = >=1 bad change followed by >=1 intelligible change; second leg 'scheduled': 2-7 changes, 1-2 of them undecodable, inserted by the receive thread while the application follows the documented pattern (async stream, mio-0.6, mio-0.8) under the baton scheduler of C13 (uniform and PCT schedules): every intelligible change is delivered, nothing stays in the cache while the consumer is parked, each bad change is reported at most once",
   );
   rep.assume(&format!("a call that burns more than {} s of thread CPU time is judged as not returning (honest calls take microseconds)", shard::CPU_BUDGET_S));
   rep.assume("a bad change may be reported (Err) or skipped; both count as handled once");
   let ncases = args.scale(60_000, 16_000_000);
   let seed = args.seed;
   let replay_case: Option<u64> = crate::replay_index(args);
+  let replay_is_scheduled = crate::replay_leg(args).as_deref() == Some("scheduled");
   let acc = shard::run_sharded(args, ncases, args.threads(), "C09", move |i, acc, br| {
-    if replay_case.map_or(false, |rc| rc != i) {
+    if replay_case.map_or(false, |rc| rc != i) || replay_is_scheduled {
       return;
     }
     let mut rng = Rng::derive(seed, 0x0909, i);
@@ -74,6 +75,7 @@ pub fn run_c09(args: &Args) -> i32 {
     let out = api::run_case_c09(&case, acc, &tag, &mut rng, &|l| br.mark(l));
     acc.evaluations += 1;
     acc.count("bad_changes_injected", out.bad_injected);
+    acc.count("payloadless_changes_with_odd_status_info_injected", out.odd_status_injected);
     acc.count("errors_reported", out.errors_reported);
     acc.count("intelligible_delivered", out.delivered);
     acc.count(&format!("cases_{:?}_{}", case.flavor, if case.reliable { "reliable" } else { "besteffort" }), 1);
@@ -96,6 +98,66 @@ pub fn run_c09(args: &Args) -> i32 {
       acc.sample(json!({"case": tag, "script": api::case_json(&case)}), 2);
     }
   });
+  // ---- second leg: the same under interleavings (C13's baton scheduler): the receive thread inserts changes,
+  // some undecodable, while the application follows the documented pattern through the async stream / mio
+  let mut acc = acc;
+  let replay_leg = crate::replay_leg(args);
+  if replay_leg.as_deref().map_or(true, |l| l == "scheduled") {
+    use rustdds::verif::schedsc;
+    let n = args.scale(4000, 400_000);
+    let sacc = crate::ctx::par_cases(args.threads(), n, |i, acc| {
+      if replay_case.map_or(false, |rc| rc != i) {
+        return;
+      }
+      let mut rng = Rng::derive(seed, 0x090A, i);
+      let mech = *rng.pick(&[schedsc::Mech::AsyncStream, schedsc::Mech::AsyncStream, schedsc::Mech::Mio06, schedsc::Mech::Mio08]);
+      let reliable = rng.chance(1, 2);
+      let nsamples = 2 + rng.below(6) as usize;
+      let mut bad_mask = 0u64;
+      for _ in 0..1 + rng.below(2) {
+        bad_mask |= 1 << rng.below(nsamples as u64);
+      }
+      let nbad = bad_mask.count_ones() as u64;
+      let ooo = reliable && rng.chance(1, 4);
+      let pct = if rng.chance(1, 2) { 1 + rng.below(3) as usize } else { 0 };
+      let sseed = rng.next();
+      let o = schedsc::run_reader_scenario_bad(mech, reliable, nsamples, ooo, false, bad_mask, sseed, pct);
+      acc.evaluations += 1;
+      acc.count("scheduled:scenarios", 1);
+      acc.count("scheduled:undecodable_changes_injected", nbad);
+      acc.count("scheduled:errors_reported", o.errors_reported);
+      acc.count("scheduled:intelligible_delivered", o.delivered.len() as u64);
+      acc.count("scheduled:consumer_parks", o.parks);
+      let replay = || json!({"case": {"seed": seed, "stream": 0x090A, "index": i, "leg": "scheduled"}, "mechanism": format!("{mech:?}"), "reliable": reliable, "samples": nsamples, "undecodable_mask": bad_mask, "out_of_order": ooo, "schedule_seed": sseed, "pct_depth": pct, "trace": o.trace});
+      if let Some(e) = &o.error {
+        acc.violate("C09/error:consumer-call-failed-for-good", json!({"err": e}), replay());
+        return;
+      }
+      if o.exhausted {
+        acc.inconclusive.push(format!("C09 scheduled scenario {i} exhausted its step budget"));
+        return;
+      }
+      let got: std::collections::BTreeSet<u32> = o.delivered.iter().chain(o.found_after_final_park.iter()).copied().collect();
+      let want: std::collections::BTreeSet<u32> = o.produced.iter().copied().collect();
+      if !o.found_after_final_park.is_empty() {
+        acc.violate(format!("C09/blocked:{mech:?}:consumer-parked-with-intelligible-changes-behind-an-undecodable-one"), json!({"still_in_the_cache": o.found_after_final_park, "delivered": o.delivered, "errors_reported": o.errors_reported}), replay());
+      } else if got != want {
+        acc.violate(format!("C09/blocked:{mech:?}:intelligible-change-never-delivered-under-interleaving"), json!({"delivered": o.delivered, "intelligible": o.produced}), replay());
+      }
+      if o.delivered.len() != o.delivered.iter().collect::<std::collections::BTreeSet<_>>().len() {
+        acc.violate("C09/once:intelligible-sample-delivered-twice", json!({"delivered": o.delivered}), replay());
+      }
+      if o.errors_reported > nbad {
+        acc.violate("C09/report:bad-change-reported-more-than-once", json!({"errors": o.errors_reported, "bad_changes": nbad}), replay());
+      }
+      if o.parks > 0 {
+        acc.distinct.insert(o.schedule_hash ^ bad_mask);
+      }
+    });
+    acc.merge(sacc);
+    rep.require("scheduled:intelligible_delivered", 1000);
+    rep.require("scheduled:errors_reported", 200);
+  }
   rep.require("bad_changes_injected", 1000);
   rep.require("intelligible_delivered", 1000);
   rep.finish(acc)
